@@ -453,6 +453,69 @@ def run(check, mirror, tier):
                                  known_predicates=KNOWN_PRED, describe=lambda m, v: {k: model_value(m, x) for k, x in v.items()},
                                  prefer=lambda v: z3.And(v["hour"] < 24, v["minute"] < 60, v["second"] < 60, v["offset"] % 3600 == 0)))
 
+    # --- O4b: days and time duration literals ------------------------------------------------------------------------------------
+    import feelvals as fv
+    DT_RE = re.search(r'const REGEX_DAYS_AND_TIME: &str =\s*r#"(.*?)"#;', mirror.read("feel/src/temporal/dt_duration.rs"), re.S)
+    DT_EXPECT = r'^(?P<sign>-)?P((?P<days>[0-9]+)D)?(T((?P<hours>[0-9]+)H)?((?P<minutes>[0-9]+)M)?((?P<seconds>[0-9]+)(?P<fractional>\.[0-9]*)?S)?)?$'
+    if not DT_RE or DT_RE.group(1) != DT_EXPECT:
+        check.add("C14/M/dt-regex-structure", "inconclusive", "M", 0, dict(found=DT_RE.group(1) if DT_RE else None,
+                  note="the capture-group model of the days-and-time duration obligation no longer matches the pattern"))
+    else:
+        DTM = MODELS + [m for m in fv.VALUE_MODELS if "array" in m[0].pattern or "IntoIter" in m[0].pattern]
+        for fk in ((1, 3, 9) if tier == "quick" else range(0, 10)):
+            def setup_dt(ex, st, fk=fk):
+                v, g = {}, {}
+                for nm, k in (("days", 3), ("hours", 2), ("minutes", 2), ("seconds", 2)):
+                    v[nm], sv = digits(ex, st, nm, k)
+                    v["has_" + nm] = z3.Bool(ex.fresh_name("has_" + nm))
+                    g[nm] = (v["has_" + nm], sv)
+                    v[nm + "_k"] = k
+                v["neg"] = z3.Bool(ex.fresh_name("neg"))
+                g["sign"] = (v["neg"], StrV("-"))
+                v["has_frac"] = z3.Bool(ex.fresh_name("has_frac"))
+                fn = ex.fresh_int(st, "u128", "frac", constrain=False)
+                ex.assume(st, z3.And(fn.e >= 0, fn.e < 10 ** fk, z3.Implies(v["has_frac"], v["has_seconds"])))
+                v["frac"], v["frac_k"] = fn.e, fk
+                g["fractional"] = (v["has_frac"], StrV(None, frac=(fn.e, fk, None)))
+
+                def cm(ex, st, rx, inp):
+                    yield st, some(Opaque("Captures", info=g))
+                ex.capture_model = cm
+                return "<FeelDaysAndTimeDuration as TryFrom<&str>>::try_from", [StrV(None, id=z3.IntVal(0))], v
+
+            def post_dt(ex, o, v, fk=fk):
+                r = o.value
+                anyg = z3.Or(v["has_days"], v["has_hours"], v["has_minutes"], v["has_seconds"])
+                total = z3.Sum([z3.If(v["has_" + nm], v[nm] * unit, 0) for nm, unit in
+                                (("days", 86400 * 10 ** 9), ("hours", 3600 * 10 ** 9), ("minutes", 60 * 10 ** 9), ("seconds", 10 ** 9))])
+                fr = (v["frac"] * 10 ** (9 - fk)) if fk else z3.IntVal(0)
+                total = total + z3.If(v["has_frac"], fr, 0)
+                want = z3.If(v["neg"], -total, total)
+                res = [("a duration with at least one component is accepted", z3.Implies(anyg, r.disc == 0))]
+                if "Ok" in r.alts:
+                    res.append(("the duration denotes exactly the written value: sign applied to days, hours, minutes, seconds AND fraction",
+                                z3.Implies(r.disc == 0, r.alts["Ok"][0].fields[0].e == want)))
+                return res
+
+            def replay_dt(i, rb, fk=fk):
+                txt = "-" if i["neg"] else ""
+                txt += "P" + ("%sD" % str(i["days"]).rjust(i["days_k"], "0") if i["has_days"] else "")
+                tpart = ("%sH" % str(i["hours"]).rjust(2, "0") if i["has_hours"] else "") + ("%sM" % str(i["minutes"]).rjust(2, "0") if i["has_minutes"] else "")
+                if i["has_seconds"]:
+                    tpart += str(i["seconds"]).rjust(2, "0") + (("." + str(i["frac"]).rjust(fk, "0")) if i["has_frac"] else "") + "S"
+                txt += ("T" + tpart) if tpart else ""
+                total = sum(i[nm] * u for nm, u in (("days", 86400), ("hours", 3600), ("minutes", 60), ("seconds", 1)) if i["has_" + nm]) * 10 ** 9
+                total += (i["frac"] * 10 ** (9 - fk)) if (i["has_frac"] and fk) else 0
+                total = -total if i["neg"] else total
+                # compare through a duration built without a fraction plus/minus whole nanosecond steps: value in seconds as a number
+                _, out, _ = replay_call(rb, ["feel", '(duration("%s") - duration("PT0S")) / duration("PT0.000000001S")' % txt])
+                got = out[6:].strip() if out.startswith("VALUE ") else out
+                return got != str(total), 'duration("%s") is %s ns, written value is %d ns' % (txt, got[:60], total)
+
+            jobs.append(lambda c, fk=fk, setup_dt=setup_dt, post_dt=post_dt, replay_dt=replay_dt: decide(
+                c, crate, "dt_duration_literal/frac%d" % fk, setup_dt, post_dt, replay_dt, rb, enums=ENUMS, models=DTM, min_paths=2, unwind=8,
+                known_predicates=KNOWN_PRED, describe=lambda m, v: {k: model_value(m, x) for k, x in v.items()}))
+
     # --- O5: FeelDate::try_from(&str) ------------------------------------------------------------
     ysh = shapes["year"]
     for yk in range(ysh[1], (ysh[2] or 9) + 1):
